@@ -27,7 +27,9 @@ ELEMS = STR  # a per-letter annotation track: its values are opaque to the code 
 class BioModels(M.Models):
     def __init__(self):
         super(BioModels, self).__init__()
-        self.sorts += [FEATS, DBX, "Ref", "Quals"]
+        self.sorts += [FEATS, DBX, "Ref", "Quals", "Feat"]
+        self.decl("feats_snoc", [FEATS, "Feat"], FEATS)
+        self.decl("feat", [STR, INT, INT, INT, "Quals"], "Feat")
         self.decl("ref_none", [], "Ref")
         self.decl("quals_empty", [], "Quals")
         self.decl("feats_rot", [FEATS, INT, INT], FEATS)          # table, shift i in (0,n), length n
@@ -92,6 +94,9 @@ class BioModels(M.Models):
 
     def merge_alts(self, ex, st, alts):
         return merge_alts(ex, st, alts)
+
+    def features_append(self, ex, st, owner, f):
+        return features_append(ex, st, owner, f)
 
     def comprehension(self, ex, st, fr, node, gen, it, what):
         # {k: f(v) for k, v in letter_annotations.items()}  -- pointwise over tracks
@@ -166,6 +171,19 @@ DBX_ = DBX
 def km_rec_add(ex, st, fr, self, args, kwargs):
     ex.used_models.add("D-REC-ADD")
     (o,) = args
+    if isinstance(o, VObj) and o.kind == "Seq" or isinstance(o, VT) and o.t.sort == STR:
+        st = st.fork()
+        r = ex.models.mk_record(st, self.kind, tm.concat(ex.models.rec_text(st, self), ex.models.text(st, o)))
+        for k in ("id", "name", "description", "dbxrefs", "features"):
+            st.set_inplace(r, k, st.get(self, k))
+        d = VDict(M.new_oid())
+        ann = st.get(self, "annotations")
+        st.set_inplace(d, "items", dict(st.get(ann, "items")) if isinstance(ann, VDict) else {})
+        st.set_inplace(r, "annotations", d)
+        la = VObj("LetAnn")
+        st.set_inplace(la, "rep", VT(tm.S(""), "list"))
+        st.set_inplace(r, "letter_annotations", la)
+        return [(st, "ok", r)]
     if not (isinstance(o, VObj) and o.kind in ("SeqRecord", "CircularRecord")):
         raise Unsupported("record + non-record")
     if o.kind == "CircularRecord":
@@ -193,6 +211,29 @@ def km_rec_add(ex, st, fr, self, args, kwargs):
     o2 = VObj("LetAnn")
     st.set_inplace(o2, "rep", VT(tm.seqcat(st.get(la, "rep").t, st.get(lb, "rep").t), "list"))
     st.set_inplace(r, "letter_annotations", o2)
+    return [(st, "ok", r)]
+
+
+def km_rec_radd(ex, st, fr, self, args, kwargs):
+    """SeqRecord.__radd__(other: Seq|str): text prepended, features shifted by len(other), ids/annotations kept"""
+    ex.used_models.add("D-REC-ADD")
+    (o,) = args
+    if isinstance(o, VObj) and o.kind in ("SeqRecord", "CircularRecord"):
+        return ex.raise_(st, "RuntimeError")
+    st = st.fork()
+    left = ex.models.text(st, o)
+    r = ex.models.mk_record(st, self.kind, tm.concat(left, ex.models.rec_text(st, self)))
+    for k in ("id", "name", "description", "dbxrefs", "letter_annotations"):
+        st.set_inplace(r, k, st.get(self, k))
+    st.set_inplace(r, "features", VT(tm.app("feats_shift", FEATS, ex.models.feats_term(st, st.get(self, "features")),
+                                            tm.slen(left)), "list"))
+    d = VDict(M.new_oid())
+    ann = st.get(self, "annotations")
+    st.set_inplace(d, "items", dict(st.get(ann, "items")) if isinstance(ann, VDict) else {})
+    st.set_inplace(r, "annotations", d)
+    la = VObj("LetAnn")
+    st.set_inplace(la, "rep", VT(tm.S(""), "list"))
+    st.set_inplace(r, "letter_annotations", la)
     return [(st, "ok", r)]
 
 
@@ -301,6 +342,7 @@ M.KIND_METHODS.update({
     ("SeqRecord", "__len__"): km_rec_len,
     ("SeqRecord", "__getitem__"): km_rec_getitem,
     ("SeqRecord", "__add__"): km_rec_add,
+    ("SeqRecord", "__radd__"): km_rec_radd,
     ("SeqRecord", "__contains__"): km_rec_contains,
     ("SeqRecord", "__init__"): km_rec_init,
     ("SeqRecord", "reverse_complement"): km_rec_rc,
@@ -461,3 +503,39 @@ M.INSTANTIATE.update({
     "CompoundLocation": inst_compoundlocation,
     "SeqFeature": inst_seqfeature,
 })
+
+
+# ---------------------------------------------------------------------- feature terms (value view of one feature)
+FEAT = "Feat"
+
+
+def quals_term(ex, st, q):
+    if isinstance(q, VT) and q.t.sort == QUALS:
+        return q.t
+    if isinstance(q, VDict):
+        items = st.get(q, "items")
+        keys = sorted(k for k in items if isinstance(k, str))
+        args = []
+        for k in keys:
+            v = items[k]
+            if isinstance(v, VT) and v.t.sort == STR:
+                args.append(v.t)
+            else:
+                raise Unsupported("qualifier value %r" % (v,))
+        return tm.app("quals:" + ",".join(keys), QUALS, *args)
+    raise Unsupported("qualifiers %r" % (q,))
+
+
+def feature_term(ex, st, f):
+    loc = st.get(f, "location")
+    if not (isinstance(loc, VObj) and loc.kind == "FeatureLocation"):
+        raise Unsupported("feature term of location %r" % (loc,))
+    return tm.app("feat", FEAT, st.get(f, "type").t, st.get(loc, "start").t, st.get(loc, "end").t,
+                  st.get(loc, "strand").t, quals_term(ex, st, st.get(f, "qualifiers")))
+
+
+def features_append(ex, st, owner, f):
+    """record.features.append(feature) on a value-modelled feature table: functional update of the field"""
+    cur = st.get(owner, "features")
+    ft = ex.models.feats_term(st, cur)
+    return st.set(owner, "features", VT(tm.app("feats_snoc", FEATS, ft, feature_term(ex, st, f)), "list"))
